@@ -105,8 +105,20 @@ impl SecondaryTable {
         self.table_ref_id.table_id
     }
 
+    #[cfg(not(risinglight_verif))]
     pub async fn lock_for_deletion(&self) -> OwnedMutexGuard<()> {
         self.txn_mgr.lock_for_deletion(self.table_id()).await
+    }
+
+    /// Same as above, with yield points before and after the lock is taken.
+    #[cfg(risinglight_verif)]
+    pub async fn lock_for_deletion(&self) -> OwnedMutexGuard<()> {
+        let args = [("table", self.table_id() as i64)];
+        crate::verif::yield_point("txn.before_lock", &args).await;
+        let guard = self.txn_mgr.lock_for_deletion(self.table_id()).await;
+        crate::verif::event("table.locked", &args);
+        crate::verif::yield_point("txn.locked", &args).await;
+        guard
     }
 }
 
